@@ -327,9 +327,180 @@ func genJSON(t *rapid.T, depth int) interface{} {
 	}
 }
 
+// ---- results are values: several calls, results held --------------------------------
+
+// HeldCase: 2-4 helper calls whose results are all still held when the later calls run (Go variables, let
+// bindings, or the values a block collects before it writes). What a helper returned for one value does not
+// change because the helper is called again.
+type HeldCall struct {
+	Helper string `json:"helper"`
+	Doc    string `json:"doc"` // JSON spelling of the argument (a string for the string helpers)
+	Size   int    `json:"size,omitempty"`
+}
+
+type HeldCase struct {
+	Calls []HeldCall `json:"calls"`
+	Mode  string     `json:"mode"` // direct | let | block
+}
+
+func (h HeldCall) expr(i int) string {
+	switch h.Helper {
+	case "truncate":
+		return fmt.Sprintf("truncate(x%d, {size: %d})", i, h.Size)
+	}
+	if h.Doc == "null" {
+		return h.Helper + "(nil)" // a nil context value is an unset name; spell it as the literal
+	}
+	return fmt.Sprintf("%s(x%d)", h.Helper, i)
+}
+
+// emit: how a held result is written without being escaped again
+func (h HeldCall) emit(e string) string {
+	if h.Helper == "toJSON" || h.Helper == "raw" {
+		return "<%= " + e + " %>"
+	}
+	return "<%= raw(" + e + ") %>"
+}
+
+func (h HeldCall) direct(v interface{}) (string, error) {
+	str, _ := v.(string)
+	switch h.Helper {
+	case "toJSON":
+		o, err := encoders.ToJSON(v)
+		return string(o), err
+	case "htmlEscape":
+		return escapes.HTMLEscape(str, helptest.NewContext())
+	case "jsEscape":
+		return escapes.JSEscape(str), nil
+	case "raw":
+		return string(encoders.Raw(str)), nil
+	case "truncate":
+		return text.Truncate(str, hctx.Map{"size": h.Size}), nil
+	}
+	return "", fmt.Errorf("harness: unknown helper %s", h.Helper)
+}
+
+func checkHeld(r *vk.Run, c HeldCase) *vk.Fail {
+	defer r.Watch("held", c)()
+	fail := func(f string, a ...interface{}) *vk.Fail {
+		return &vk.Fail{Kind: "held", Case: c, Msg: fmt.Sprintf(f, a...)}
+	}
+	vals := make([]interface{}, len(c.Calls))
+	data := map[string]interface{}{}
+	for i, h := range c.Calls {
+		if err := json.Unmarshal([]byte(h.Doc), &vals[i]); err != nil {
+			return &vk.Fail{Kind: "decode", Msg: err.Error()}
+		}
+		if _, ok := vals[i].(string); !ok && h.Helper != "toJSON" {
+			return &vk.Fail{Kind: "decode", Msg: "string helper with a non-string argument"}
+		}
+		if vals[i] != nil {
+			data[fmt.Sprintf("x%d", i)] = vals[i]
+		}
+	}
+	key, _ := json.Marshal(c)
+	nt := ""
+	if len(c.Calls) >= 2 {
+		nt = "H|" + string(key)
+	}
+	r.Count(nt, "held/"+c.Mode)
+	if c.Mode == "direct" {
+		held := make([]string, len(c.Calls))
+		then := make([]string, len(c.Calls))
+		for i, h := range c.Calls {
+			i, h := i, h
+			res := vk.Safe(func() (string, error) { return h.direct(vals[i]) })
+			if res.Panicked() || res.Err != nil {
+				return fail("%s(%s): %s", h.Helper, h.Doc, res)
+			}
+			held[i] = res.Out
+			then[i] = strings.Clone(res.Out)
+		}
+		for i := range held {
+			if held[i] != then[i] {
+				return fail("%s(%s) returned %q; after the later calls the SAME returned string reads %q", c.Calls[i].Helper, c.Calls[i].Doc, then[i], held[i])
+			}
+		}
+		return nil
+	}
+	// expected: every call rendered alone
+	var want []string
+	for i, h := range c.Calls {
+		src := h.emit(h.expr(i))
+		res := vk.Safe(func() (string, error) { return plush.Render(src, plush.NewContextWith(data)) })
+		if res.Panicked() || res.Err != nil {
+			return fail("%s alone: %s", src, res)
+		}
+		want = append(want, res.Out)
+	}
+	var sb strings.Builder
+	switch c.Mode {
+	case "let":
+		for i, h := range c.Calls {
+			fmt.Fprintf(&sb, "<%% let h%d = %s %%>", i, h.expr(i))
+		}
+		for i, h := range c.Calls {
+			if i > 0 {
+				sb.WriteString("|")
+			}
+			sb.WriteString(h.emit(fmt.Sprintf("h%d", i)))
+		}
+	case "block":
+		sb.WriteString("<%= if (true) { %>")
+		for i, h := range c.Calls {
+			if i > 0 {
+				sb.WriteString("|")
+			}
+			sb.WriteString(h.emit(h.expr(i)))
+		}
+		sb.WriteString("<% } %>")
+	default:
+		return &vk.Fail{Kind: "decode", Msg: "unknown mode " + c.Mode}
+	}
+	src := sb.String()
+	res := vk.Safe(func() (string, error) { return plush.Render(src, plush.NewContextWith(data)) })
+	if nt != "" {
+		r.Sample(func() interface{} { return map[string]interface{}{"case": c, "template": src, "result": res.String()} })
+	}
+	if res.Panicked() || res.Err != nil {
+		return fail("%s: %s", src, res)
+	}
+	if exp := strings.Join(want, "|"); res.Out != exp {
+		return fail("%s rendered %q; the calls rendered one by one give %q", src, res.Out, exp)
+	}
+	return nil
+}
+
+func genHeld(t *rapid.T) HeldCase {
+	c := HeldCase{Mode: rapid.SampledFrom([]string{"direct", "let", "block"}).Draw(t, "mode")}
+	same := rapid.Bool().Draw(t, "sameHelper")
+	first := ""
+	for i, n := 0, rapid.IntRange(2, 4).Draw(t, "calls"); i < n; i++ {
+		h := HeldCall{Helper: rapid.SampledFrom([]string{"toJSON", "toJSON", "htmlEscape", "jsEscape", "raw", "truncate"}).Draw(t, "helper")}
+		if same && first != "" {
+			h.Helper = first
+		}
+		first = h.Helper
+		var v interface{}
+		if h.Helper == "toJSON" {
+			v = genJSON(t, 2)
+		} else {
+			v = strings.ToValidUTF8(gen.Payload(t, "s"), "\ufffd")
+			h.Size = rapid.IntRange(0, 12).Draw(t, "size")
+		}
+		if h.Helper != "truncate" {
+			h.Size = 0
+		}
+		b, _ := json.Marshal(v)
+		h.Doc = string(b)
+		c.Calls = append(c.Calls, h)
+	}
+	return c
+}
+
 // ---- the test -----------------------------------------------------------------
 
-const rule = "truncate: (E) every string of length <=5 (quick: <=4) over {a, é, 漢, e+U+0301, 0xFF} x size in [-2,8] x trail in {absent, '', '.', '...', 'é漢'} directly, plus a template pass; (R) payload strings up to ~40 runes x size in [-2,70] x trails up to 8 runes. htmlEscape/jsEscape/raw: fixed hostile payloads + random payloads over the full byte alphabet, called directly and through plush.Render (htmlEscape also through its block form). toJSON: recursive generator of JSON-representable values (nil, bool, finite float64, valid UTF-8 strings, slices, string-keyed maps, nesting <=4). Oracles: rune-space prefix+trail bound and no split rune; no raw < > & ' \" and decode-back for htmlEscape; no < > & =, no unescaped quote or line break for jsEscape; byte identity for raw; valid JSON, decode-back and no raw < > & for toJSON. Non-trivial = the string is longer than size (truncate), contains a special / non-ASCII / invalid byte (escapers), contains a special or a container (toJSON); distinct by (helper, arguments, route)."
+const rule = "truncate: (E) every string of length <=5 (quick: <=4) over {a, é, 漢, e+U+0301, 0xFF} x size in [-2,8] x trail in {absent, '', '.', '...', 'é漢'} directly, plus a template pass; (R) payload strings up to ~40 runes x size in [-2,70] x trails up to 8 runes. htmlEscape/jsEscape/raw: fixed hostile payloads + random payloads over the full byte alphabet, called directly and through plush.Render (htmlEscape also through its block form). toJSON: recursive generator of JSON-representable values (nil, bool, finite float64, valid UTF-8 strings, slices, string-keyed maps, nesting <=4). HELD RESULTS: 2-4 calls (one helper or mixed) whose results are all still held while the later calls run - as Go values, as let bindings emitted afterwards, or inside one block - must read exactly what each call gives alone. Oracles: rune-space prefix+trail bound and no split rune; no raw < > & ' \" and decode-back for htmlEscape; no < > & =, no unescaped quote or line break for jsEscape; byte identity for raw; valid JSON, decode-back and no raw < > & for toJSON. Non-trivial = the string is longer than size (truncate), contains a special / non-ASCII / invalid byte (escapers), contains a special or a container (toJSON); distinct by (helper, arguments, route)."
 
 func setup(t *testing.T) *vk.Run {
 	r := vk.Start(t, "C20", rule,
@@ -360,6 +531,13 @@ func setup(t *testing.T) *vk.Run {
 			return &vk.Fail{Kind: "decode", Msg: err.Error()}
 		}
 		return checkJSON(r, v, c.ViaTmpl)
+	})
+	r.Replayer("held", func(raw json.RawMessage) *vk.Fail {
+		var c HeldCase
+		if f := vk.Decode(raw, &c); f != nil {
+			return f
+		}
+		return checkHeld(r, c)
 	})
 	return r
 }
@@ -452,4 +630,13 @@ func TestProp(t *testing.T) {
 	r.Rapid("toJSON", r.Pick(4000, 50000), func(t *rapid.T) *vk.Fail {
 		return checkJSON(r, genJSON(t, 4), rapid.IntRange(0, 3).Draw(t, "via") == 0)
 	})
+	// results held across later calls: fixed sequences (long value first, so that a later, shorter result fits
+	// wherever the earlier one was built), then random ones
+	for _, mode := range []string{"direct", "let", "block"} {
+		for _, h := range []string{"toJSON", "htmlEscape", "jsEscape", "raw", "truncate"} {
+			r.Check(checkHeld(r, HeldCase{Mode: mode, Calls: []HeldCall{{Helper: h, Doc: `"a long first value <&> with 'specials'"`, Size: 20}, {Helper: h, Doc: `"b"`, Size: 20}, {Helper: h, Doc: `"<c>"`, Size: 2}}}))
+		}
+		r.Check(checkHeld(r, HeldCase{Mode: mode, Calls: []HeldCall{{Helper: "toJSON", Doc: `{"k":[1,2,3],"s":"<x>"}`}, {Helper: "toJSON", Doc: `[true,null]`}, {Helper: "toJSON", Doc: `null`}}}))
+	}
+	r.Rapid("held", r.Pick(3000, 40000), func(t *rapid.T) *vk.Fail { return checkHeld(r, genHeld(t)) })
 }
